@@ -159,14 +159,22 @@ def transformed_run(spec, rec_a):
         cons.append(LinearConstraint(pb.linear.a_eq.copy(),
                                      pb.linear.b_eq.copy(),
                                      pb.linear.b_eq.copy()))
+    # the map from the solver's variables to the user's is the DOCUMENTED one,
+    # computed by the harness (never Problem.build_x, which is under test)
+    scale_a = bool(rec_a.run.settings.get("options", {}).get("scale"))
+
+    def to_user(x):
+        y = truth.user_point(rec_a.built, scale_a, np.asarray(x, float))
+        return pb.build_x(x) if y is None else y
+
     for j, nc in enumerate(b2.nl):
         spy = b2.con_spies[j]
         cons.append(NonlinearConstraint(
-            (lambda spy: (lambda x: spy(pb.build_x(x))))(spy),
+            (lambda spy: (lambda x: spy(to_user(x))))(spy),
             nc["lb"].copy(), nc["ub"].copy()))
     fun = None
     if b2.fun is not None:
-        fun = (lambda x: b2.fun(pb.build_x(x)))
+        fun = (lambda x: b2.fun(to_user(x)))
     opts = dict(b2.options or {})
     # If run A really scaled, run B is given the unit box and also asked to
     # scale: its factor is exactly 1 and its shift exactly 0, so the values
@@ -454,12 +462,21 @@ def run_case(case):
         x0 = np.asarray(spec["x0"])
         lb, ub, pats = gen.bounds(rng, n, x0, force=pats)
         if fam != "fixed" and rng.random() < 0.5:
-            # widths over 6 decades
+            # widths over 6 decades (sometimes over 13)
+            hi_dec = 3 if rng.random() < 0.7 else 10
             for i in range(n):
                 if pats[i] == "two":
-                    w = float(10.0 ** rng.uniform(-3, 3))
+                    w = float(10.0 ** rng.uniform(-3, hi_dec))
                     c = 0.5 * (lb[i] + ub[i])
                     lb[i], ub[i] = c - 0.5 * w, c + 0.5 * w
+        if fam != "scale" and rng.random() < 0.3:
+            # a variable fixed at a huge value: nothing the solver does with
+            # the OTHER variables may depend on its magnitude
+            for i in range(n):
+                if pats[i] == "fixed":
+                    lb[i] = ub[i] = float(rng.choice([-1.0, 1.0])) * \
+                        10.0 ** rng.uniform(6, 12)
+                    break
         x0, _ = gen.place_x0(rng, x0, lb, ub)
         spec["x0"] = x0.tolist()
         spec["bounds"] = {"lb": lb.tolist(), "ub": ub.tolist(),
@@ -486,7 +503,12 @@ def run_case(case):
         kind = {"fixed": "fixed variables vs reduced problem",
                 "scale": "scale=True vs explicit unit-box problem",
                 "fixed_scale": "fixed+scaled vs reduced unit-box problem"}[fam]
-        compare(ra, rb, viols, kind, info, xmap=pb.build_x, internal=True)
+        sc_a = bool(ra.run.settings.get("options", {}).get("scale"))
+
+        def xmap(x, ra=ra, sc_a=sc_a, pb=pb):
+            y = truth.user_point(ra.built, sc_a, np.asarray(x, float))
+            return pb.build_x(x) if y is None else y
+        compare(ra, rb, viols, kind, info, xmap=xmap, internal=True)
         residual_check(ra, rng, viols, info)
         nfix = int(np.count_nonzero(pb._fixed_idx))
         nonunit = bool(np.any(pb._scaling_factor != 1.0))
